@@ -1,6 +1,6 @@
 """C08 Fast-mode dataset equals light-mode items, however it is initialised."""
 import astq
-from rules import cgsize, dsinit, rv64, rvhsem, x86hsem
+from rules import cgsize, dsinit, rv64, rvhsem, x86hsem, aeshw
 
 LEVEL = 'other'
 TECHNIQUE = 'affine / interval case analysis of randomx_init_dataset over (count mod 4) x (count < 4) regions, constant-table agreement spec vs C++ vs assembled object, call-sequence and shape rules on the item construction; evaluation of the address-arithmetic slice on a sample set of ranges'
@@ -30,3 +30,4 @@ def run(ctx, R):
     x86hsem.rule_ss_hsem(ctx, R)    # compiled and interpreted dataset initialisation compute the same SuperscalarHash
     rv64.rule_rvv_tpl_reinit(ctx, R)
     rvhsem.rule_rvv_ss_hsem(ctx, R)
+    aeshw.rule_rvv_jit_vlen(ctx, R)
